@@ -10,12 +10,14 @@ from math import lcm
 
 import z3
 
-from .poly import (ONE, p_add, p_atom, p_atoms, p_const, p_constval, p_deg, p_divexact, p_is_const, p_lead, p_mul,
+from .poly import (ONE, p_subst, p_add, p_atom, p_atoms, p_const, p_constval, p_deg, p_divexact, p_is_const, p_lead, p_mul,
                    p_scale)
 
 MAXDEPTH = 600
 BOUND = 10 ** 9          # |atom| <= BOUND is assumed by the integer lattice split (declared ranges are far inside)
 TIGHTEN = True
+import os as _os
+LAZY_GENERAL = _os.environ.get('SYMBT_LAZY_GENERAL', '1') == '1'
 
 
 class Abort(BaseException):
@@ -63,6 +65,10 @@ class Ctx:
         self.decision_log = []   # (depth, clock, atom ids of condition) for non-trivial decisions
         self.log_decisions = False
         self.assumptions = []
+        self.deg_limit = 3
+        self.subst = {}          # atom id -> polynomial (linear equalities decided on this path)
+        self.sliver_assume = True
+        self.sliver_count = 0
 
     # ---- atoms / inputs
     def atom(self, z, name=None):
@@ -195,6 +201,31 @@ class Ctx:
         self._add(cond if d else z3.Not(cond))
         return d
 
+    def learn_equality(self, p):
+        """p == 0 holds on this path.  If p is linear, eliminate its newest atom from all later normal forms."""
+        if self.subst:
+            p = p_subst(p, self.subst)
+        if not p or p_deg(p) != 1:
+            return
+        cands = sorted({i for m in p for i, _ in m}, reverse=True)
+        k = rest = None
+        for i in cands:
+            c = p.get(((i, 1),))
+            if c is None:
+                continue
+            r = {m: -v / c for m, v in p.items() if m != ((i, 1),)}
+            if z3.is_int(self.atoms[i]):
+                # an Int atom is only replaced by a visibly integer combination of Int atoms (keeps IsInt obligations syntactic)
+                if any(v.denominator != 1 for v in r.values()) or any(not z3.is_int(self.atoms[j]) for m in r for j, _ in m):
+                    continue
+            k, rest = i, r
+            break
+        if k is None:
+            return
+        for j in list(self.subst):
+            self.subst[j] = p_subst(self.subst[j], {k: rest})
+        self.subst[k] = rest
+
     def assume(self, c):
         if isinstance(c, SymBool):
             c = c.t
@@ -322,6 +353,8 @@ def p_z3(p):
     d = p_deg(p)
     if d > ctx.maxdeg:
         ctx.maxdeg = d
+    if d > ctx.deg_limit:
+        raise Unsupported('polynomial degree %d > limit %d (non-linear region not claimed)' % (d, ctx.deg_limit))
     return z3.Sum(terms) if len(terms) > 1 else terms[0]
 
 
@@ -398,13 +431,18 @@ def _rel(p, kind):
 
 
 class SymBool:
-    __slots__ = ('t',)
+    __slots__ = ('t', 'eqp', 'pol')
 
-    def __init__(self, t):
+    def __init__(self, t, eqp=None, pol=True):
         self.t = t
+        self.eqp = eqp        # polynomial p such that (t is `p == 0`) when pol else (t is `p != 0`)
+        self.pol = pol
 
     def __bool__(self):
-        return Ctx.cur.decide(self.t)
+        d = Ctx.cur.decide(self.t)
+        if self.eqp is not None and d == self.pol:
+            Ctx.cur.learn_equality(self.eqp)
+        return d
 
     def _o(self, o):
         if isinstance(o, SymBool):
@@ -421,7 +459,7 @@ class SymBool:
         return SymBool(z3.Xor(self.t, self._o(o)))
 
     def __invert__(self):
-        return SymBool(z3.Not(self.t))
+        return SymBool(z3.Not(self.t), self.eqp, not self.pol)
 
     __rand__ = __and__
     __ror__ = __or__
@@ -451,6 +489,8 @@ def _isnan(x):
 
 def lift(x):
     if isinstance(x, Sym):
+        if type(x) is not Sym:
+            return x.force()
         return x
     if isinstance(x, bool):
         return Sym(p_const(int(x)), _P1)
@@ -507,6 +547,13 @@ class Sym:
     def make(n, d):
         if not n:
             return Sym({}, _P1)
+        ctx = Ctx.cur
+        if ctx is not None and ctx.subst:
+            n = p_subst(n, ctx.subst)
+            if not p_is_const(d):
+                d = p_subst(d, ctx.subst)
+            if not n:
+                return Sym({}, _P1)
         if p_is_const(d):
             cv = p_constval(d)
             return Sym(n if cv == 1 else p_scale(n, 1 / cv), _P1)
@@ -573,7 +620,7 @@ class Sym:
     __rmul__ = __mul__
 
     def _iszero(s):
-        return Ctx.cur.decide(_rel(s.n, 'eq'))
+        return bool(SymBool(_rel(s.n, 'eq'), s.n, True))
 
     def __truediv__(s, o):
         if _num_nan(o):
@@ -626,6 +673,11 @@ class Sym:
     def __abs__(s):
         if s.is_concrete():
             return Sym(p_const(abs(s.const())), _P1)
+        return LazyAbs(s)
+
+    def _abs_now(s):
+        if s.is_concrete():
+            return Sym(p_const(abs(s.const())), _P1)
         if Ctx.cur.decide(_rel(s.n, 'ge')):
             return s
         return -s
@@ -648,6 +700,10 @@ class Sym:
         if diff.is_concrete():
             c = diff.const()
             return {'lt': c < 0, 'le': c <= 0, 'gt': c > 0, 'ge': c >= 0, 'eq': c == 0, 'ne': c != 0}[kind]
+        if kind == 'eq':
+            return SymBool(_rel(diff.n, kind), diff.n, True)
+        if kind == 'ne':
+            return SymBool(_rel(diff.n, kind), diff.n, False)
         return SymBool(_rel(diff.n, kind))
 
     def __lt__(s, o):
@@ -753,6 +809,132 @@ class Sym:
         ctx._add(eq.t if isinstance(eq, SymBool) else z3.BoolVal(eq))
         ctx.model = None
         return R
+
+
+class LazyAbs(Sym):
+    """|x| that does not fork until it is used arithmetically: comparisons `|x| < e` become one condition
+    (x < e and -x < e), which is how bt's is_zero / isclose tests use it."""
+    __slots__ = ('x', '_f')
+
+    def __init__(self, x):
+        self.x = x
+        self._f = None
+
+    def force(self):
+        if self._f is None:
+            self._f = self.x._abs_now()
+        return self._f
+
+    @property
+    def n(self):
+        return self.force().n
+
+    @property
+    def d(self):
+        return self.force().d
+
+    def __abs__(self):
+        return self
+
+    def _lazy_cmp(self, o, kind):
+        if self._f is not None:
+            return None
+        if _num_nan(o):
+            return kind == 'ne'
+        if isinstance(o, LazyAbs):
+            o = o.force()
+        o = lift(o)
+        if o is NotImplemented:
+            return None
+        a, b = self.x, -self.x
+        ctx = Ctx.cur
+        if ctx.sliver_assume and o.is_concrete() and 0 < o.const() <= Fraction(1, 10 ** 12) and kind in ('lt', 'le', 'gt', 'ge') \
+                and not _all_int(a.n):
+            # bt's is_zero(x): the strip 0 < |x| < 1e-16 is assumed away (stated assumption), so the test is exact x == 0
+            c = o.const()
+            z = a._cmp(0, 'eq')
+            if isinstance(z, bool):
+                return z if kind in ('lt', 'le') else (not z)
+            big = _bor(a._cmp(c, 'ge'), b._cmp(c, 'ge'))
+            ctx._add(z3.Or(z.t, big.t if isinstance(big, SymBool) else z3.BoolVal(big)))
+            ctx.sliver_count += 1
+            return z if kind in ('lt', 'le') else SymBool(z3.Not(z.t), z.eqp, not z.pol)
+        if o.is_concrete() and 0 < o.const() <= Fraction(1, 10 ** 12) and kind in ('lt', 'le', 'gt', 'ge') and _all_int(a.n) and _no_small_part(a.n, a.d):
+            # integer lattice: |x| < tiny  <=>  x == 0 exactly (x = N/L with N integer valued); lets the path learn the equality
+            z = a._cmp(0, 'eq')
+            if isinstance(z, bool):
+                return z if kind in ('lt', 'le') else (not z)
+            return z if kind in ('lt', 'le') else SymBool(z3.Not(z.t), z.eqp, not z.pol)
+        if not LAZY_GENERAL:
+            return None
+        if kind in ('lt', 'le'):
+            return _band(a._cmp(o, kind), b._cmp(o, kind))
+        if kind in ('gt', 'ge'):
+            return _bor(a._cmp(o, kind), b._cmp(o, kind))
+        return None
+
+    def __lt__(s, o):
+        r = s._lazy_cmp(o, 'lt')
+        return Sym.__lt__(s, o) if r is None else r
+
+    def __le__(s, o):
+        r = s._lazy_cmp(o, 'le')
+        return Sym.__le__(s, o) if r is None else r
+
+    def __gt__(s, o):
+        r = s._lazy_cmp(o, 'gt')
+        return Sym.__gt__(s, o) if r is None else r
+
+    def __ge__(s, o):
+        r = s._lazy_cmp(o, 'ge')
+        return Sym.__ge__(s, o) if r is None else r
+
+    __hash__ = None
+
+    def __eq__(s, o):
+        return Sym.__eq__(s, o)
+
+    def __ne__(s, o):
+        return Sym.__ne__(s, o)
+
+
+def _no_small_part(n, d):
+    """n/d with constant d and all coefficients of n on a coarse lattice (denominators <= 2^16): a multiple of 1/L"""
+    if not p_is_const(d):
+        return False
+    for c in n.values():
+        if c.denominator > (1 << 16):
+            return False
+    L = 1
+    for c in n.values():
+        L = lcm(L, c.denominator)
+    return L * p_constval(d) < 10 ** 11 and L < 10 ** 11
+
+
+def _all_int(p):
+    """every atom of p is an SMT Int (then the exact lattice split already removes the thin strips)"""
+    ctx = Ctx.cur
+    for m in p:
+        for i, _ in m:
+            if not z3.is_int(ctx.atoms[i]):
+                return False
+    return True
+
+
+def _band(a, b):
+    if isinstance(a, bool):
+        return b if a else False
+    if isinstance(b, bool):
+        return a if b else False
+    return a & b
+
+
+def _bor(a, b):
+    if isinstance(a, bool):
+        return True if a else b
+    if isinstance(b, bool):
+        return True if b else a
+    return a | b
 
 
 def is_sym(x):
